@@ -6,13 +6,18 @@ M1  NStep_MC.cfg: all done placements for streams of length <= 6, n <= 3, E <= 2
 M2  the same grid (every placement of done flags) is executed on the real MultiStepReplayBuffer +
     companion buffer; M3 seeded long streams (n 1..5, 1..4 envs, capacity 4..16, PER companion,
     index-coupled sampling).  Every recorded execution is validated by TLC (NStep_Trace).
+
+Dimensions varied along the cases (see vfw/drive/nstep.py): discount in {0, 1, 1/2, 1/4, 9/10, 99/100}, rewards that are negative /
+zero / multiples of 1/4, capacity equal to the number of environments (every add is one full lap), n up to 8 (thorough),
+six observation kinds + half-integer encodings, the dtype option, the name and dtype of the done field, unbatched single-environment
+transitions as train_off_policy builds them, PER or uniform companion buffer.
 """
 from __future__ import annotations
 
 import itertools
 import random
 
-from ..codec import OBS_KINDS
+from ..drive.ring import ALL_KINDS, HALF
 
 TRACE_CFG = """SPECIFICATION TSpec
 CONSTANTS
@@ -47,44 +52,58 @@ def run(ctx):
     traces = []
 
     def rewards(t, E):
-        return [1 + ((t + 2 * e) % 3) for e in range(1, E + 1)]
+        return [((t + 2 * e) % 4) - 1 for e in range(1, E + 1)]          # as MCStep of NStep.tla: -1, 0, 1, 2
 
-    # exhaustive grid of done placements
-    grid = [(1, 1, 2, 1, 4), (2, 1, 3, 1, 6), (3, 1, 2, 1, 6), (3, 1, 4, 2, 6), (2, 2, 3, 1, 4), (3, 2, 4, 0, 4)]
+    def kind_of(i):
+        return ALL_KINDS[i % 6] + (HALF if (i // 6) % 2 else "")
+
+    # exhaustive grid of done placements; entries (n, envs, capacity, gexp | (gnum, gden), stream length)
+    grid = [(1, 1, 2, 1, 4), (2, 1, 3, 1, 6), (3, 1, 2, 1, 6), (3, 1, 4, 2, 6), (2, 2, 3, 1, 4), (3, 2, 4, 0, 4),
+            (3, 1, 4, (0, 1), 5), (2, 2, 2, 1, 3)]
     if not quick:
-        grid += [(2, 2, 4, 1, 5), (3, 2, 5, 1, 5), (4, 1, 5, 1, 7), (2, 3, 4, 1, 3)]
+        grid += [(2, 2, 4, 1, 5), (3, 2, 5, 1, 5), (4, 1, 5, 1, 7), (2, 3, 4, 1, 3), (3, 1, 3, (9, 10), 6), (2, 3, 3, 1, 3)]
     k = 0
-    for (n, E, N, gexp, L) in grid:
+    for (n, E, N, g, L) in grid:
+        gexp, grat = (g, None) if isinstance(g, int) else (0, g)
         for dones in itertools.product(itertools.product([0, 1], repeat=E), repeat=L):
             steps = [(rewards(t, E), list(d)) for t, d in enumerate(dones, start=1)]
-            kind = OBS_KINDS[k % 4] if k % 7 == 0 else "vector"
+            kind = kind_of(k // 7) if k % 7 == 0 else "vector"
+            rden = 4 if (k % 4 == 1 and (grat is None or grat[1] == 1)) else 1
             traces.append(nstep.run(n, E, N, gexp, kind, steps, per=(k % 5 == 0), sample_every=(3 if k % 3 == 0 else 0),
-                                    seed=ctx.seed + k))
-            ctx.case(("grid", n, E, N, gexp, dones), nontrivial=any(any(d) for d in dones))
+                                    seed=ctx.seed + k, grat=grat, rden=rden))
+            ctx.case(("grid", n, E, N, g, dones), nontrivial=any(any(d) for d in dones))
             k += 1
     ctx.extra["grid_streams"] = k
     # long random streams
     for j in range(40 if quick else 400):
-        n = rng.randint(1, 5)
+        n = rng.randint(1, 5) if (quick or j % 10) else rng.choice([6, 8])
         E = rng.randint(1, 4)
         N = rng.randint(max(4, E), 16)
-        gexp = rng.choice([0, 1, 1, 2])
+        if j % 5 == 4:
+            N = rng.choice([E, E + 1, 2 * E])          # every add fills the whole buffer / wraps at once
+        gexp = rng.choice([0, 1, 1, 2]) if n <= 5 else rng.choice([0, 1])
         L = rng.randint(n + 2, 40)
         p = rng.choice([0.1, 0.3, 0.6])
         steps = []
         for t in range(1, L + 1):
-            steps.append(([rng.randint(0, 3) for _ in range(E)], [int(rng.random() < p) for _ in range(E)]))
+            steps.append(([rng.randint(-3, 3) for _ in range(E)], [int(rng.random() < p) for _ in range(E)]))
         # every third stream: a discount that is not a power of two (99/100, 9/10), returns identified up to 2% of 1/den^(n-1)
         grat = None
         if j % 3 == 2 and n <= 4:
             grat = (9, 10) if (n == 4 or j % 2) else (99, 100)
-        traces.append(nstep.run(n, E, N, gexp, OBS_KINDS[j % 4], steps, per=bool(j % 2), sample_every=rng.choice([0, 2, 5]),
-                                seed=ctx.seed + j, grat=grat))
-        ctx.case(("long", n, E, N, grat or gexp, str(steps)))
+        elif j % 9 == 3:
+            grat = (0, 1)                              # gamma = 0, the lower end of the range
+        # rewards in quarters (exact in float32) where the discount is dyadic
+        rden = 4 if (j % 2 == 0 and (grat is None or grat[1] == 1)) else 1
+        traces.append(nstep.run(n, E, N, gexp, kind_of(j), steps, per=bool(j % 2), sample_every=rng.choice([0, 2, 5]),
+                                seed=ctx.seed + j, grat=grat, rden=rden))
+        ctx.case(("long", n, E, N, grat or gexp, rden, str(steps)))
     ctx.sample({"nstep_trace_cfg": traces[40]["cfg"], "events": traces[40]["ev"][:4]})
     ctx.validate("NStep_Trace", TRACE_CFG, traces, sig=sig, what=what, chunk=400)
-    ctx.assume("gamma in {1, 1/2, 1/4} and small integer rewards so that float32 returns are exact; for gamma in {9/10, 99/100} (n <= 4) a "
-               "float32 return is identified with the nearest multiple of 1/den^(n-1) if it lies within 2% of that unit")
+    ctx.assume("gamma in {0, 1, 1/2, 1/4} and rewards that are small multiples of 1 or 1/4 (negative ones included) so that float32 returns "
+               "are exact; for gamma in {9/10, 99/100} (n <= 4, integer rewards) a float32 return is identified with the nearest multiple "
+               "of 1/den^(n-1) if it lies within 2% of that unit")
+    ctx.assume("clear() of the n-step buffer is not in C10's quantifier (the window of raw steps survives it) and is not interleaved")
     ctx.assume("truncation without done is not an episode boundary for this property; the driver feeds done flags only")
     rule = ("case = (n, envs, capacity, gamma, stream of (rewards, done flags)); grid: every placement of done flags for the "
             "listed small parameters; long: seeded random streams; non-trivial = at least one done flag in the stream")
